@@ -63,6 +63,9 @@ def size_strategy(L, J, cap=96, lo=2):
         st.tuples(st.integers(1, max(1, cap // P)),
                   st.sampled_from([-1, 0, 0, 1])).map(
                       lambda t: clip(t[0] * P + t[1])),
+        # odd exactly at level t: (2m+1)*2^t
+        st.tuples(st.integers(0, max(0, J - 1)), st.integers(0, max(0, cap // 2))).map(
+            lambda t: clip((2 * (t[1] % max(1, cap // (2 ** (t[0] + 1)))) + 1) * 2 ** t[0])),
         st.integers(lo, cap),
     ]
     return st.one_of(*opts)
